@@ -89,6 +89,8 @@ type World struct {
 	Candidates []*ValidatorKeys // funded, unstaked candidates
 	Users      []*Account
 	EthUsers   []*Account
+	Probe      *Account // funded account reserved for liveness probes (never used by generators)
+	ProbeSink  *Account
 	Gen        *config.GenesisDoc
 	TmGen      *tmtypes.GenesisDoc
 	AppState   *consensus.AppState
@@ -156,6 +158,8 @@ func BuildWorld(seed uint64, k Knobs) *World {
 	for i := 0; i < k.NumEthUsers; i++ {
 		w.EthUsers = append(w.EthUsers, NewEthAccount(seed, fmt.Sprintf("e%d", i)))
 	}
+	w.Probe = NewEdAccount(seed, "probe")
+	w.ProbeSink = NewEdAccount(seed, "probesink")
 
 	olt := balance.Currency{Id: 0, Name: "OLT", Chain: chain.ONELEDGER, Decimal: 18, Unit: "nue"}
 	vt := balance.Currency{Id: 1, Name: "VT", Chain: chain.ONELEDGER, Unit: "vt"}
@@ -254,6 +258,7 @@ func BuildWorld(seed uint64, k Knobs) *World {
 	for _, u := range w.EthUsers {
 		addBal(u.Addr, "OLT", fund)
 	}
+	addBal(w.Probe.Addr, "OLT", fund)
 	addBal(keys.Address(RewardPoolName), "OLT", amt(k.RewardsPoolFund))
 
 	deleg := *delegation.NewDelegationState()
